@@ -167,4 +167,22 @@ theorem parse_json_use_first {α} (m : List (Str × α)) :
   have := pjPairs_useFirst m []
   simpa using this
 
+/-- The functions of this property are pure, so a *history* of evaluations is the list of the single
+evaluations: serializing and reading back any sequence of values, in any order and with repetitions,
+returns exactly those values.  (For the real code this is what the token-reuse part of the
+correspondence check observes: one compiled expression evaluated for many inputs must agree, step by
+step, with freshly parsed expressions — a token that keeps state between evaluations breaks it.) -/
+theorem serialize_parse_history (vs : List JValue) (h : ∀ v ∈ vs, v.valid = true) :
+    vs.map (fun v => parseJson (serializeJson v)) = vs.map some := by
+  induction vs with
+  | nil => rfl
+  | cons v t ih =>
+    simp only [List.map_cons]
+    rw [serialize_parse_value v (h v (by simp)), ih (fun w hw => h w (by simp [hw]))]
+
+/-- the same for `xml-to-json(json-to-xml(·))` on its proved domain -/
+theorem json_xml_history_partial (vs : List JValue) (h : ∀ v ∈ vs, v.x2jOK = true) :
+    ∀ v ∈ vs, ∃ t, (jsonToXml v).bind xmlToJson = .ok t ∧ parseJson t = some v :=
+  fun v hv => json_xml_roundtrip_partial v (h v hv)
+
 end EPV.C17
